@@ -98,7 +98,7 @@ char GOC;
 /* slice containment, general form: v is empty-null or lies inside the input */
 #define XML_SLICE_IN(s, v) (((v).p == NULL && (v).n == 0) || (__CPROVER_same_object((v).p, (s)->_input.p) \
    && __CPROVER_POINTER_OFFSET((v).p) >= __CPROVER_POINTER_OFFSET((s)->_input.p) \
-   && (size_t)(__CPROVER_POINTER_OFFSET((v).p) - __CPROVER_POINTER_OFFSET((s)->_input.p)) + (v).n <= (s)->_input.n))
+   && (v).n <= (s)->_input.n && (size_t)(__CPROVER_POINTER_OFFSET((v).p) - __CPROVER_POINTER_OFFSET((s)->_input.p)) <= (s)->_input.n - (v).n))
 #define XML_IS_SPACE(c) ((c) == (char)32 || (c) == (char)9 || (c) == (char)13 || (c) == (char)10)
 #define XML_IS_NAMESTART(c) ((c) == (char)58 || (c) == (char)95 || ((c) >= (char)65 && (c) <= (char)90) || ((c) >= (char)97 && (c) <= (char)122))
 #define XML_IS_NAMECHAR(c) (XML_IS_NAMESTART(c) || (c) == (char)45 || (c) == (char)46 || ((c) >= (char)48 && (c) <= (char)57))
